@@ -104,12 +104,29 @@ Definition bstep (cell : sstate) (pc : bpc) (gp permit : bool)
   end.
 
 (* awaiters *)
-Inductive akind := AStop | AStartOrStop.
+(* AStop / AStartOrStop: ServiceRunner::_await_stop / _await_start_or_stop (service.rs);
+   AWhileStarted / AWaitStopping: StateWatcher::while_started / wait_stopping_or_stopped
+   (state.rs).  All four are the same small program over the watch cell:
+       loop { let state = borrow().clone(); if <cond state> { return }; changed().await? }   *)
+Inductive akind := AStop | AStartOrStop | AWhileStarted | AWaitStopping.
 Inductive apc := ACheck | AWaitChg | ADone (r : sstate).
 Record awaiter := mkA { a_kind : akind; a_pc : apc; a_seen : nat }.
 
 Definition acond (k : akind) (c : sstate) : bool :=
-  match k with AStop => stopped c | AStartOrStop => negb (sstate_eqb c Starting) end.
+  match k with
+  | AStop => stopped c
+  | AStartOrStop => negb (sstate_eqb c Starting)
+  | AWhileStarted => negb (sstate_eqb c Started)                 (* !state.started() *)
+  | AWaitStopping => stopped c || sstate_eqb c Stopping          (* state.stopped() || state.stopping() *)
+  end.
+
+(* from when on the condition of an await holds for good (the cell only moves forward) *)
+Definition settled (k : akind) (c : sstate) : bool :=
+  match k with
+  | AStop => stopped c
+  | AStartOrStop => Nat.leb 2 (srank c)
+  | AWhileStarted | AWaitStopping => Nat.leb 3 (srank c)
+  end.
 
 Definition astep (cell : sstate) (ver : nat) (a : awaiter) : awaiter :=
   match a_pc a with
@@ -268,6 +285,11 @@ Definition obs_okb (kinds : list akind) (o : obs) : bool :=
              | (AStop, None) => negb (stopped (o_cell o))     (* awaiters observe the stop *)
              | (AStartOrStop, Some r) => negb (sstate_eqb r Starting)
              | (AStartOrStop, None) => sstate_eqb (o_cell o) Starting
+             | (AWhileStarted, Some r) => negb (sstate_eqb r Started)
+             | (AWhileStarted, None) => sstate_eqb (o_cell o) Started
+             (* wait_stopping_or_stopped has returned as soon as the cell is stopping/stopped *)
+             | (AWaitStopping, Some r) => Nat.leb 3 (srank r)
+             | (AWaitStopping, None) => Nat.ltb (srank (o_cell o)) 3
              end) (combine kinds (o_aw o)).
 
 Fixpoint chainb (prev : obs) (l : list obs) : bool :=
@@ -335,12 +357,14 @@ Definition T_ro (t : T) : option routcome :=
 Definition T_so (t : T) : option soutcome :=
   match t with I 0%Z => Some SOk | I 1%Z => Some SErr | I 2%Z => Some SPanic | _ => None end.
 (* client-level ops of the harness: 0 start, 1 stop, 2 grant, 3 spawn await_stop,
-   4 spawn await_start_or_stop, 5 nothing (just settle and observe) *)
+   4 spawn await_start_or_stop, 5 nothing (just settle and observe),
+   6 spawn StateWatcher::while_started, 7 spawn StateWatcher::wait_stopping_or_stopped *)
 Definition T_op (t : T) : option (option op) :=
   match t with
   | I 0%Z => Some (Some OStart) | I 1%Z => Some (Some OStop) | I 2%Z => Some (Some OGrant)
   | I 3%Z => Some (Some (OSpawn AStop)) | I 4%Z => Some (Some (OSpawn AStartOrStop))
   | I 5%Z => Some None
+  | I 6%Z => Some (Some (OSpawn AWhileStarted)) | I 7%Z => Some (Some (OSpawn AWaitStopping))
   | _ => None
   end.
 
